@@ -379,7 +379,7 @@ func tailStr(s string, n int) string {
 // (ソ 表 能 予 十 貼) or 0x7c (ポ), half-width katakana, ordinary kana/kanji.
 var jpTexts = []string{"ソフトウェア", "表示する", "機能一覧", "予定", "十", "ポート番号", "ｶﾀｶﾅ ﾊﾝｶｸ", "ブートセクタ", "読み込み開始", "ＦＡＴ１２フォーマットフロッピーディスクのための記述", "能", "噂", "申請", "構造", "暴走", "ソ", "ｱ", "表", "次の行へ", "ｿ", "ﾎﾟ", "あいうえお", "データ", "終わり", "ﾀｲ", "ﾀｲﾏｰ", "ﾁｬﾀｲ", "ﾄｰ", "ｿﾞｰﾝ"}
 
-var failingSrcs = []string{"\tMOV AX,\n", "\tMOV AX,1\n\tGARBAGE here\n", "\tDB \"unterminated\n", "lbl\n\tMOV AX,1\n", "\t[BITS\n", "\tMOV AX,1\n\tJMP {{.x}}\n", "\tDB 1,2,3\n\tMOV AX,(\n"}
+var failingSrcs = []string{"\tMOV AX,\n", "\tMOV AX,1\n\tGARBAGE here\n", "\tDB \"unterminated\n", "lbl\n\tMOV AX,1\n", "\t[BITS\n", "\tMOV AX,1\n\tJMP {{.x}}\n", "\tDB 1,2,3\n\tMOV AX,(\n", "\tDB 1,2\n\tDB 99999999999999999999\n", "\tDD 0xfffffffffffffffffffff\n\tNOP\n"}
 
 var propC19 = &Prop[CLICase]{
 	ID:     "C19",
@@ -437,7 +437,7 @@ var propC19 = &Prop[CLICase]{
 			}
 			if rapid.IntRange(0, 9).Draw(t, "tiny") == 0 {
 				// degenerate programs: nothing at all, only line breaks, only comments
-				src = rapid.SampledFrom([]string{"", "\n", "\n\n", "; nothing\n", "# nothing", " \t\n", "\r\n", "\tHLT", "\tHLT\n"}).Draw(t, "tinysrc")
+				src = rapid.SampledFrom([]string{"", "\n", "\n\n", "; nothing\n", "# nothing", " \t\n", "\r\n", "\tHLT", "\tHLT\n", "fin:\n", "\tNOP\nfin:\n", "fin:\n\n\n", "\tNOP\n\x1a", "fin: ; last\n"}).Draw(t, "tinysrc")
 			}
 			return CLICase{Kind: "prog", Src: src, Debug: rapid.IntRange(0, 4).Draw(t, "debug") == 0, Prefill: rapid.SampledFrom([]int{0, 0, 70000, 200000}).Draw(t, "pprefill")}
 		case 6, 7, 8:
